@@ -561,7 +561,7 @@ def setIndex (lhs : Val) (ixs : List Ix) (value : Option Val) (every : Bool) : O
         (subRange xs p.1 p.2).bind fun mid =>
         (mapOut (fun e => setIndex e rest value true) mid).bind fun mid' =>
         .ok (.list (xs.take p.1.toNat ++ mid' ++ xs.drop p.2.toNat))
-      else .panic                       -- todo!("assgn to slice")  (F13, owned by C14)
+      else .throw                       -- "can't assign to a list slice" (type error; F13 repaired)
     | .str bs, .index i =>
       if rest.isEmpty then
         match value with
